@@ -1,0 +1,469 @@
+//go:build verif
+
+// Contracts for the verification machinery in /verif (comment-only; no declarations).
+//
+// C05: every dial request completes exactly once; dials are deduplicated and capped.
+// Sequential, per-call / per-iteration facts of the dial machinery: dial queue ordering, dial back-off arithmetic,
+// dialSync reference counting, limiter token accounting, dial worker bookkeeping.
+
+package swarm
+
+// ---------------------------------------------------------------------------
+// dialQueue: a slice ordered by Delay. dqSorted is the representation invariant: the empty queue of newDialQueue is
+// sorted, Add/UpdateOrAdd/NextBatch preserve it and are the only writers of dq.q.
+
+//@ pred dqSorted(dq *dialQueue) = forall i int, j int :: 0 <= i && i < j && j < len(dq.q) ==> dq.q[i].Delay <= dq.q[j].Delay
+
+//@ func newDialQueue
+//@ prop C05
+//@ ensures result != nil && fresh(result) && len(result.q) == 0 && dqSorted(result)
+
+//@ func (dq *dialQueue) Len
+//@ prop C05
+//@ ensures result == len(dq.q)
+//@ modifies nothing
+
+//@ func (dq *dialQueue) top
+//@ prop C05
+//@ requires len(dq.q) > 0
+//@ ensures result.Addr == dq.q[0].Addr && result.Delay == dq.q[0].Delay
+//@ modifies nothing
+
+//@ func (dq *dialQueue) Add
+//@ prop C05
+//@ loop 0 invariant -1 <= i && i < len(dq.q) && dq.q == old(dq.q)
+//@ loop 0 invariant forall j int :: i < j && j < len(dq.q) ==> dq.q[j].Delay > adelay.Delay
+//@ loop 0 invariant (old(dqSorted(dq)) ==> dqSorted(dq)) && adelay.Delay == old(adelay.Delay) && adelay.Addr == old(adelay.Addr)
+//@ loop 0 invariant forall j int :: 0 <= j && j < len(dq.q) ==> dq.q[j].Delay == old(dq.q[j].Delay) && dq.q[j].Addr == old(dq.q[j].Addr)
+//@ loop 0 decreases i + 1
+//@ ensures len(dq.q) == len(old(dq.q)) + 1
+//@ ensures old(dqSorted(dq)) ==> forall j int :: 0 <= j && j < len(old(dq.q)) && old(dq.q[j].Delay) <= adelay.Delay ==>
+//@         dq.q[j].Addr == old(dq.q[j].Addr) && dq.q[j].Delay == old(dq.q[j].Delay)
+//@ ensures old(dqSorted(dq)) ==> forall j int :: 0 <= j && j < len(old(dq.q)) && old(dq.q[j].Delay) > adelay.Delay ==>
+//@         dq.q[j+1].Addr == old(dq.q[j].Addr) && dq.q[j+1].Delay == old(dq.q[j].Delay)
+//@ ensures old(dqSorted(dq)) ==> forall j int :: 0 <= j && j <= len(old(dq.q)) && (j == 0 || old(dq.q[j-1].Delay) <= adelay.Delay) &&
+//@         (j == len(old(dq.q)) || old(dq.q[j].Delay) > adelay.Delay) ==> dq.q[j].Addr == adelay.Addr && dq.q[j].Delay == adelay.Delay
+//@ ensures old(dqSorted(dq)) ==> forall a int, b int :: 0 <= a && a < b && b < len(dq.q) ==> dq.q[a].Delay <= dq.q[b].Delay &&
+//@         (a >= 1 ==> old(dq.q[a-1].Delay) <= old(dq.q[b-1].Delay))
+//@ modifies dq.q
+
+//@ func (dq *dialQueue) NextBatch
+//@ prop C05
+//@ loop 0 invariant 0 <= i && i <= len(dq.q) && dq.q == old(dq.q)
+//@ loop 0 invariant forall j int :: 0 <= j && j < i ==> dq.q[j].Delay == dq.q[0].Delay
+//@ loop 0 decreases len(dq.q) - i
+//@ ensures len(old(dq.q)) == 0 ==> len(result) == 0 && len(dq.q) == 0
+//@ ensures len(old(dq.q)) > 0 ==> len(result) >= 1
+//@ ensures len(result) + len(dq.q) == len(old(dq.q))
+//@ ensures forall j int :: 0 <= j && j < len(result) ==> result[j].Addr == old(dq.q)[j].Addr && result[j].Delay == old(dq.q)[0].Delay
+//@ ensures forall j int :: 0 <= j && j < len(dq.q) ==> dq.q[j].Addr == old(dq.q)[j + len(result)].Addr && dq.q[j].Delay == old(dq.q)[j + len(result)].Delay
+//@ ensures len(dq.q) > 0 ==> dq.q[0].Delay != old(dq.q)[0].Delay
+//@ ensures old(dqSorted(dq)) ==> forall a int, b int :: 0 <= a && a < b && b < len(dq.q) ==> dq.q[a].Delay <= dq.q[b].Delay &&
+//@         old(dq.q)[a + len(result)].Delay <= old(dq.q)[b + len(result)].Delay
+//@ modifies dq.q
+
+//@ func (dq *dialQueue) UpdateOrAdd
+//@ prop C05
+//@ loop 0 invariant 0 <= i && i <= len(dq.q) + 1 && len(dq.q) <= len(old(dq.q)) && dq.q == old(dq.q)[:len(dq.q)]
+//@ loop 0 invariant old(dqSorted(dq)) ==> forall a int, b int :: 0 <= a && a < b && b < len(dq.q) ==> dq.q[a].Delay <= dq.q[b].Delay &&
+//@         (b + 1 < len(dq.q) ==> dq.q[a+1].Delay <= dq.q[b+1].Delay)
+//@ loop 0 invariant adelay.Delay == old(adelay.Delay) && adelay.Addr == old(adelay.Addr)
+//@ loop 0 decreases len(dq.q) - i
+//@ ensures old(dqSorted(dq)) ==> dqSorted(dq)
+//@ ensures len(dq.q) <= len(old(dq.q)) + 1
+//@ ensures !called(Add, 0) ==> len(dq.q) <= len(old(dq.q)) && called(Equal, 0) && ret(Equal, 0, 0)
+//@ modifies dq.q, elems(dq.q)
+
+// ---------------------------------------------------------------------------
+// DialBackoff: an address of a peer is refused exactly while its recorded deadline lies in the future; every failure
+// pushes the deadline to now + min(BackoffBase + BackoffCoef * tries^2, BackoffMax) and counts the try.
+
+// (db.entries[q] != db.entries: a map of back-off records is not the map of peers - a typing fact the untyped heap model
+// does not know for values read under a quantifier; db.entries != nil: established by init() before the object is shared.)
+//@ lockinv DialBackoff.lock(db *DialBackoff) = db.entries != nil && (forall q peer.ID :: has(db.entries, q) ==> db.entries[q] != nil && db.entries[q] != db.entries) &&
+//@     (forall q peer.ID, s string :: has(db.entries, q) && has(db.entries[q], s) ==> db.entries[q][s] != nil && db.entries[q][s].tries >= 1)
+
+//@ func (db *DialBackoff) Backoff
+//@ prop C05
+//@ ensures backoff <==> has(db.entries[p], string(addr.Bytes())) && called(Now, 0) &&
+//@         ret(Now, 0, 0) < db.entries[p][string(addr.Bytes())].until
+//@ modifies nothing
+
+//@ func (db *DialBackoff) AddBackoff
+//@ prop C05
+//@ ensures has(db.entries, p) && has(db.entries[p], string(addr.Bytes())) && db.entries[p][string(addr.Bytes())] != nil
+//@ ensures !old(has(db.entries[p], string(addr.Bytes()))) ==> db.entries[p][string(addr.Bytes())].tries == 1 &&
+//@         db.entries[p][string(addr.Bytes())].until == ret(Now, 0, 0) + BackoffBase
+//@ ensures old(has(db.entries[p], string(addr.Bytes()))) ==>
+//@         db.entries[p][string(addr.Bytes())] == old(db.entries[p][string(addr.Bytes())]) &&
+//@         db.entries[p][string(addr.Bytes())].tries == old(db.entries[p][string(addr.Bytes())].tries) + 1 &&
+//@         db.entries[p][string(addr.Bytes())].until == ret(Now, 1, 0) +
+//@             min(BackoffBase + BackoffCoef * (old(db.entries[p][string(addr.Bytes())].tries) * old(db.entries[p][string(addr.Bytes())].tries)), BackoffMax)
+//@ ensures old(has(db.entries[p], string(addr.Bytes()))) ==> db.entries[p][string(addr.Bytes())].until <= ret(Now, 1, 0) + BackoffMax
+//@ ensures forall q peer.ID :: q != p ==> has(db.entries, q) == old(has(db.entries, q))
+//@ ensures forall q peer.ID :: q != p ==> db.entries[q] == old(db.entries[q])
+//@ ensures forall b *backoffAddr :: !fresh(b) && b != old(db.entries[p][string(addr.Bytes())]) ==> b.tries == old(b.tries) && b.until == old(b.until)
+//@ modifies contents(db.entries), contents(db.entries[p]), backoffAddr.tries, backoffAddr.until
+
+//@ func (db *DialBackoff) Clear
+//@ prop C05
+//@ ensures !has(db.entries, p)
+//@ ensures forall q peer.ID :: q != p ==> has(db.entries, q) == old(has(db.entries, q)) && db.entries[q] == old(db.entries[q])
+//@ modifies contents(db.entries)
+
+// ---------------------------------------------------------------------------
+// dialSync: one activeDial per peer, reference counted; the entry lives exactly as long as somebody waits on it.
+
+//@ lockinv dialSync.mutex(ds *dialSync) = ds.dials != nil && (forall q peer.ID :: has(ds.dials, q) ==> ds.dials[q] != nil && ds.dials[q].refCnt >= 1) &&
+//@     (forall q peer.ID, r peer.ID :: has(ds.dials, q) && has(ds.dials, r) && q != r ==> ds.dials[q] != ds.dials[r])
+
+//@ func newDialSync
+//@ prop C05
+//@ ensures result != nil && fresh(result) && result.dials != nil && len(result.dials) == 0 && (forall q peer.ID :: !has(result.dials, q))
+
+//@ func (ds *dialSync) getActiveDial
+//@ prop C05
+//@ ensures result1 == nil && result0 != nil && has(ds.dials, p) && ds.dials[p] == result0
+//@ ensures old(has(ds.dials, p)) ==> result0 == old(ds.dials[p]) && result0.refCnt == old(ds.dials[p].refCnt) + 1
+//@ ensures old(has(ds.dials, p)) ==> result0.refCnt >= 2
+//@ ensures !old(has(ds.dials, p)) ==> fresh(result0) && result0.refCnt == 1 && result0.reqch != nil
+//@ ensures old(has(ds.dials, p)) ==> !called(dialWorker, 0)
+//@ ensures !old(has(ds.dials, p)) ==> ncalls(dialWorker, 0) == 1 && arg(dialWorker, 0, 0) == p && arg(dialWorker, 0, 1) == result0.reqch
+//@ ensures forall q peer.ID :: q != p ==> has(ds.dials, q) == old(has(ds.dials, q)) && ds.dials[q] == old(ds.dials[q])
+//@ ensures forall a *activeDial :: a != result0 ==> a.refCnt == old(a.refCnt)
+//@ modifies contents(ds.dials), activeDial.refCnt
+
+//@ func (ad *activeDial) dial
+//@ prop C05
+//@ callsite WithForceDirectDial#0 requires arg0 == ad.ctx
+//@ callsite WithSimultaneousConnect#0 requires arg0 == ad.ctx || (called(WithForceDirectDial, 0) && arg0 == ret(WithForceDirectDial, 0, 0))
+//@ ensures dialCtx == ad.ctx || (called(WithForceDirectDial, 0) && dialCtx == ret(WithForceDirectDial, 0, 0)) ||
+//@         (called(WithSimultaneousConnect, 0) && dialCtx == ret(WithSimultaneousConnect, 0, 0))
+//@ ensures sent(ad.reqch) <= 1
+//@ ensures result0 != nil ==> sent(ad.reqch) == 1
+//@ ensures sent(ad.reqch) == 0 ==> result0 == nil && called(Err, 0) && result1 == ret(Err, 0, 0)
+//@ modifies nothing
+
+// ---------------------------------------------------------------------------
+// dialLimiter: FD and per-peer tokens. Monitor invariant of dl.lk:
+//   wplOK  - every job queued for a peer token sits in its own peer's list (cells cleared by "waitlist[0] = nil" are
+//            tolerated: the code dereferences a popped job before using it) and lists kept in the map are non-empty;
+//   capsOK - the FD counter stays within [0, fdLimit], no peer counter exceeds perPeerLimit.
+// The second conjunct of wplPeer (the first one at j+1) and wplHead (wplPeer at j = 0, 1) are redundant: they are
+// instantiation hints for lists that are re-sliced by one.
+
+//@ func (dl *dialLimiter) shouldConsumeFd
+//@ prop C05
+//@ trusted
+//@ pure
+
+//@ func (dj *dialJob) cancelled
+//@ prop C05
+//@ trusted
+//@ ensures dj != nil
+//@ modifies nothing
+
+//@ pred wplNE(dl *dialLimiter) = dl.activePerPeer != nil && dl.waitingOnPeerLimit != nil &&
+//@     (forall p peer.ID :: has(dl.waitingOnPeerLimit, p) ==> len(dl.waitingOnPeerLimit[p]) >= 1)
+//@ pred wplPeer(dl *dialLimiter) = forall p peer.ID, j int :: has(dl.waitingOnPeerLimit, p) && 0 <= j && j < len(dl.waitingOnPeerLimit[p]) ==>
+//@         (dl.waitingOnPeerLimit[p][j] == nil || dl.waitingOnPeerLimit[p][j].peer == p) &&
+//@         (j + 1 < len(dl.waitingOnPeerLimit[p]) ==> dl.waitingOnPeerLimit[p][j+1] == nil || dl.waitingOnPeerLimit[p][j+1].peer == p)
+//@ pred wplHead(dl *dialLimiter) = forall p peer.ID :: has(dl.waitingOnPeerLimit, p) ==>
+//@         (dl.waitingOnPeerLimit[p][0] == nil || dl.waitingOnPeerLimit[p][0].peer == p) &&
+//@         (1 < len(dl.waitingOnPeerLimit[p]) ==> dl.waitingOnPeerLimit[p][1] == nil || dl.waitingOnPeerLimit[p][1].peer == p)
+//@ pred wplOK(dl *dialLimiter) = wplNE(dl) && wplPeer(dl) && wplHead(dl)
+//@ pred capsOK(dl *dialLimiter) = 0 <= dl.fdConsuming && dl.fdConsuming <= max(dl.fdLimit, 0) &&
+//@     (forall p peer.ID :: dl.activePerPeer[p] <= max(dl.perPeerLimit, 0))
+//@ lockinv dialLimiter.lk(dl *dialLimiter) = wplOK(dl) && capsOK(dl)
+
+//@ func newDialLimiterWithParams
+//@ prop C05
+//@ ensures result != nil && fresh(result) && result.fdLimit == fdLimit && result.perPeerLimit == perPeerLimit && result.fdConsuming == 0 &&
+//@         len(result.waitingOnFd) == 0 && wplOK(result) && capsOK(result)
+//@ ensures forall p peer.ID :: !has(result.activePerPeer, p) && !has(result.waitingOnPeerLimit, p)
+
+//@ func (dl *dialLimiter) addCheckFdLimit
+//@ prop C05
+//@ requires dl.fdConsuming >= 0
+//@ callsite executeDial#0 requires arg1 == dj && (dl.shouldConsumeFd(dj.addr) ==> 1 <= dl.fdConsuming && dl.fdConsuming <= dl.fdLimit)
+//@ ensures dl.shouldConsumeFd(dj.addr) && old(dl.fdConsuming) >= dl.fdLimit ==> dl.fdConsuming == old(dl.fdConsuming) &&
+//@         len(dl.waitingOnFd) == len(old(dl.waitingOnFd)) + 1 && dl.waitingOnFd[len(dl.waitingOnFd)-1] == dj
+//@ ensures !(dl.shouldConsumeFd(dj.addr) && old(dl.fdConsuming) >= dl.fdLimit) ==> dl.waitingOnFd == old(dl.waitingOnFd) &&
+//@         dl.fdConsuming == old(dl.fdConsuming) + ite(dl.shouldConsumeFd(dj.addr), 1, 0)
+//@ ensures forall j int :: 0 <= j && j < len(old(dl.waitingOnFd)) ==> dl.waitingOnFd[j] == old(dl.waitingOnFd[j])
+//@ ensures called(executeDial, 0) <==> !(dl.shouldConsumeFd(dj.addr) && old(dl.fdConsuming) >= dl.fdLimit)
+//@ ensures ncalls(executeDial, 0) <= 1
+//@ modifies dl.fdConsuming, dl.waitingOnFd
+
+//@ func (dl *dialLimiter) freePeerToken
+//@ prop C05
+//@ requires wplOK(dl) && dl.fdConsuming >= 0
+//@ loop 0 invariant dl.fdConsuming == old(dl.fdConsuming) && dl.waitingOnFd == old(dl.waitingOnFd)
+//@ loop 0 invariant wplNE(dl)
+//@ loop 0 invariant wplPeer(dl)
+//@ loop 0 invariant wplHead(dl)
+//@ loop 0 invariant dl.activePerPeer[dj.peer] == old(dl.activePerPeer[dj.peer]) - 1
+//@ loop 0 invariant forall q peer.ID :: q != dj.peer ==> dl.activePerPeer[q] == old(dl.activePerPeer[q])
+//@ loop 0 invariant (len(waitlist) > 0 ==> has(dl.waitingOnPeerLimit, dj.peer) && dl.waitingOnPeerLimit[dj.peer] == waitlist) &&
+//@         (len(waitlist) == 0 ==> !has(dl.waitingOnPeerLimit, dj.peer))
+//@ loop 0 invariant len(waitlist) > 0 ==> waitlist[0] == nil || waitlist[0].peer == dj.peer
+//@ loop 0 invariant len(waitlist) <= len(old(dl.waitingOnPeerLimit[dj.peer])) && !called(addCheckFdLimit, 0)
+//@ loop 0 decreases len(waitlist)
+//@ callsite addCheckFdLimit#0 requires arg1.peer == dj.peer && called(cancelled, 0) && !ret(cancelled, 0, 0)
+//@ assert before addCheckFdLimit#0: wplNE(dl)
+//@ assert before addCheckFdLimit#0: wplPeer(dl)
+//@ assert before addCheckFdLimit#0: wplHead(dl)
+//@ ensures wplNE(dl)
+//@ ensures wplPeer(dl)
+//@ ensures wplHead(dl)
+//@ ensures dl.activePerPeer[dj.peer] == old(dl.activePerPeer[dj.peer]) - 1 || dl.activePerPeer[dj.peer] == old(dl.activePerPeer[dj.peer])
+//@ ensures forall q peer.ID :: q != dj.peer ==> dl.activePerPeer[q] == old(dl.activePerPeer[q])
+//@ ensures len(dl.waitingOnPeerLimit[dj.peer]) <= len(old(dl.waitingOnPeerLimit[dj.peer]))
+//@ ensures dl.fdConsuming == old(dl.fdConsuming) || (dl.fdConsuming == old(dl.fdConsuming) + 1 && old(dl.fdConsuming) < dl.fdLimit)
+//@ ensures len(dl.waitingOnFd) >= len(old(dl.waitingOnFd)) && len(dl.waitingOnFd) <= len(old(dl.waitingOnFd)) + 1
+//@ ensures called(addCheckFdLimit, 0) ==> dl.activePerPeer[dj.peer] == old(dl.activePerPeer[dj.peer])
+//@ ensures !called(addCheckFdLimit, 0) ==> dl.activePerPeer[dj.peer] == old(dl.activePerPeer[dj.peer]) - 1 &&
+//@         !has(dl.waitingOnPeerLimit, dj.peer) && dl.fdConsuming == old(dl.fdConsuming) && dl.waitingOnFd == old(dl.waitingOnFd)
+//@ modifies contents(dl.activePerPeer), contents(dl.waitingOnPeerLimit), elems(_), dl.fdConsuming, dl.waitingOnFd
+
+//@ func (dl *dialLimiter) freeFDToken
+//@ prop C05
+//@ requires wplOK(dl) && dl.fdConsuming >= 1
+//@ loop 0 invariant wplNE(dl)
+//@ loop 0 invariant wplPeer(dl)
+//@ loop 0 invariant wplHead(dl)
+//@ loop 0 invariant dl.fdConsuming >= old(dl.fdConsuming) - 1 && (dl.fdConsuming == old(dl.fdConsuming) - 1 || dl.fdConsuming < dl.fdLimit)
+//@ loop 0 invariant forall p peer.ID :: dl.activePerPeer[p] <= old(dl.activePerPeer[p])
+//@ callsite executeDial#0 requires arg1 == next && called(cancelled, 0) && !ret(cancelled, 0, 0) && dl.fdConsuming >= 1
+//@ ensures wplNE(dl)
+//@ ensures wplPeer(dl)
+//@ ensures wplHead(dl)
+//@ ensures forall p peer.ID :: dl.activePerPeer[p] <= old(dl.activePerPeer[p])
+//@ ensures dl.fdConsuming >= old(dl.fdConsuming) - 1
+//@ ensures old(dl.fdConsuming) <= max(dl.fdLimit, 0) ==> dl.fdConsuming <= max(dl.fdLimit, 0)
+//@ modifies contents(dl.activePerPeer), contents(dl.waitingOnPeerLimit), elems(_), dl.fdConsuming, dl.waitingOnFd
+
+//@ func (dl *dialLimiter) finishedDial
+//@ prop C05
+//@ requires dl.shouldConsumeFd(dj.addr) ==> dl.fdConsuming >= 1
+//@ ensures dl.shouldConsumeFd(dj.addr) <==> called(freeFDToken, 0)
+//@ ensures ncalls(freeFDToken, 0) <= 1 && ncalls(freePeerToken, 0) == 1 && arg(freePeerToken, 0, 1) == dj
+//@ ensures forall p peer.ID :: dl.activePerPeer[p] <= old(dl.activePerPeer[p])
+//@ ensures dl.fdConsuming >= old(dl.fdConsuming) - 1
+//@ ensures !dl.shouldConsumeFd(dj.addr) ==> dl.fdConsuming >= old(dl.fdConsuming)
+//@ modifies contents(dl.activePerPeer), contents(dl.waitingOnPeerLimit), elems(_), dl.fdConsuming, dl.waitingOnFd
+
+//@ func (dl *dialLimiter) addCheckPeerLimit
+//@ prop C05
+//@ requires wplOK(dl) && dl.fdConsuming >= 0
+//@ callsite addCheckFdLimit#0 requires arg1 == dj && dl.activePerPeer[dj.peer] == old(dl.activePerPeer[dj.peer]) + 1 && dl.activePerPeer[dj.peer] <= dl.perPeerLimit
+//@ ensures wplNE(dl)
+//@ ensures wplPeer(dl)
+//@ ensures wplHead(dl)
+//@ ensures old(dl.activePerPeer[dj.peer]) >= dl.perPeerLimit ==> !called(addCheckFdLimit, 0)
+//@ ensures old(dl.activePerPeer[dj.peer]) >= dl.perPeerLimit ==> has(dl.waitingOnPeerLimit, dj.peer) &&
+//@         len(dl.waitingOnPeerLimit[dj.peer]) == len(old(dl.waitingOnPeerLimit[dj.peer])) + 1 &&
+//@         dl.waitingOnPeerLimit[dj.peer][len(dl.waitingOnPeerLimit[dj.peer])-1] == dj &&
+//@         dl.activePerPeer[dj.peer] == old(dl.activePerPeer[dj.peer]) && dl.fdConsuming == old(dl.fdConsuming) && dl.waitingOnFd == old(dl.waitingOnFd)
+//@ ensures old(dl.activePerPeer[dj.peer]) < dl.perPeerLimit ==> dl.activePerPeer[dj.peer] == old(dl.activePerPeer[dj.peer]) + 1 &&
+//@         has(dl.waitingOnPeerLimit, dj.peer) == old(has(dl.waitingOnPeerLimit, dj.peer)) && dl.waitingOnPeerLimit[dj.peer] == old(dl.waitingOnPeerLimit[dj.peer])
+//@ ensures old(dl.activePerPeer[dj.peer]) < dl.perPeerLimit && dl.shouldConsumeFd(dj.addr) && old(dl.fdConsuming) >= dl.fdLimit ==>
+//@         dl.fdConsuming == old(dl.fdConsuming) && len(dl.waitingOnFd) == len(old(dl.waitingOnFd)) + 1 && dl.waitingOnFd[len(dl.waitingOnFd)-1] == dj
+//@ ensures old(dl.activePerPeer[dj.peer]) < dl.perPeerLimit && !(dl.shouldConsumeFd(dj.addr) && old(dl.fdConsuming) >= dl.fdLimit) ==>
+//@         dl.waitingOnFd == old(dl.waitingOnFd) && dl.fdConsuming == old(dl.fdConsuming) + ite(dl.shouldConsumeFd(dj.addr), 1, 0)
+//@ ensures forall q peer.ID :: q != dj.peer ==> dl.activePerPeer[q] == old(dl.activePerPeer[q]) &&
+//@         has(dl.waitingOnPeerLimit, q) == old(has(dl.waitingOnPeerLimit, q)) && dl.waitingOnPeerLimit[q] == old(dl.waitingOnPeerLimit[q])
+//@ modifies contents(dl.activePerPeer), contents(dl.waitingOnPeerLimit), dl.fdConsuming, dl.waitingOnFd
+
+//@ func (dl *dialLimiter) AddDialJob
+//@ prop C05
+//@ ensures ncalls(addCheckPeerLimit, 0) == 1 && arg(addCheckPeerLimit, 0, 1) == dj
+//@ ensures old(dl.activePerPeer[dj.peer]) >= dl.perPeerLimit ==> has(dl.waitingOnPeerLimit, dj.peer) &&
+//@         len(dl.waitingOnPeerLimit[dj.peer]) == len(old(dl.waitingOnPeerLimit[dj.peer])) + 1 &&
+//@         dl.waitingOnPeerLimit[dj.peer][len(dl.waitingOnPeerLimit[dj.peer])-1] == dj &&
+//@         dl.activePerPeer[dj.peer] == old(dl.activePerPeer[dj.peer]) && dl.fdConsuming == old(dl.fdConsuming) && dl.waitingOnFd == old(dl.waitingOnFd)
+//@ ensures old(dl.activePerPeer[dj.peer]) < dl.perPeerLimit ==> dl.activePerPeer[dj.peer] == old(dl.activePerPeer[dj.peer]) + 1
+//@ ensures old(dl.activePerPeer[dj.peer]) < dl.perPeerLimit && dl.shouldConsumeFd(dj.addr) && old(dl.fdConsuming) >= dl.fdLimit ==>
+//@         dl.fdConsuming == old(dl.fdConsuming) && len(dl.waitingOnFd) == len(old(dl.waitingOnFd)) + 1 && dl.waitingOnFd[len(dl.waitingOnFd)-1] == dj
+//@ ensures old(dl.activePerPeer[dj.peer]) < dl.perPeerLimit && !(dl.shouldConsumeFd(dj.addr) && old(dl.fdConsuming) >= dl.fdLimit) ==>
+//@         dl.waitingOnFd == old(dl.waitingOnFd) && dl.fdConsuming == old(dl.fdConsuming) + ite(dl.shouldConsumeFd(dj.addr), 1, 0)
+//@ ensures forall q peer.ID :: q != dj.peer ==> dl.activePerPeer[q] == old(dl.activePerPeer[q]) &&
+//@         has(dl.waitingOnPeerLimit, q) == old(has(dl.waitingOnPeerLimit, q)) && dl.waitingOnPeerLimit[q] == old(dl.waitingOnPeerLimit[q])
+//@ modifies contents(dl.activePerPeer), contents(dl.waitingOnPeerLimit), dl.fdConsuming, dl.waitingOnFd
+
+//@ func (dl *dialLimiter) clearAllPeerDials
+//@ prop C05
+//@ ensures !has(dl.waitingOnPeerLimit, p)
+//@ ensures forall q peer.ID :: q != p ==> has(dl.waitingOnPeerLimit, q) == old(has(dl.waitingOnPeerLimit, q)) && dl.waitingOnPeerLimit[q] == old(dl.waitingOnPeerLimit[q])
+//@ modifies contents(dl.waitingOnPeerLimit)
+
+//@ func (dl *dialLimiter) executeDial
+//@ prop C05
+//@ requires dl.shouldConsumeFd(j.addr) ==> dl.fdConsuming >= 1
+//@ callsite dialFunc#0 requires called(cancelled, 0) && !ret(cancelled, 0, 0) && arg1 == j.peer && arg2 == j.addr && arg3 == j.resp
+//@ ensures ncalls(finishedDial, 0) == 1 && arg(finishedDial, 0, 1) == j
+//@ ensures ncalls(dialFunc, 0) <= 1 && sent(j.resp) <= 1
+//@ ensures ret(cancelled, 0, 0) ==> !called(dialFunc, 0) && sent(j.resp) == 0
+//@ ensures called(dialFunc, 0) && sent(j.resp) == 0 && ret(dialFunc, 0, 0) != nil ==> called(Close, 0) && arg(Close, 0, 0) == ret(dialFunc, 0, 0)
+//@ ensures sent(j.resp) == 1 ==> !called(Close, 0)
+//@ noframe
+
+// ---------------------------------------------------------------------------
+// dial ranker: every ranking has one entry per (reordered) input address, in order, with a delay of at least the offset
+
+//@ func getAddrDelay
+//@ prop C05
+//@ ensures len(result) == len(addrs)
+//@ ensures forall j int :: 0 <= j && j < len(addrs) ==> result[j].Addr == addrs[j]
+//@ ensures tcpDelay >= 0 && quicDelay >= 0 && otherDelay >= 0 ==> forall j int :: 0 <= j && j < len(result) ==> result[j].Delay >= offset
+//@ ensures tcpDelay == 0 && quicDelay == 0 && otherDelay == 0 ==> forall j int :: 0 <= j && j < len(result) ==> result[j].Delay == offset
+//@ loop 3 invariant len(res) == idx3
+//@ loop 3 invariant tcpDelay >= 0 && quicDelay >= 0 && otherDelay >= 0 ==> tcpFirstDialDelay >= 0 && lastQUICOrTCPDelay >= 0 &&
+//@         (forall j int :: 0 <= j && j < idx3 ==> res[j].Delay >= offset)
+//@ loop 3 invariant tcpDelay == 0 && quicDelay == 0 && otherDelay == 0 ==> tcpFirstDialDelay == 0 && lastQUICOrTCPDelay == 0 &&
+//@         (forall j int :: 0 <= j && j < idx3 ==> res[j].Delay == offset)
+//@ loop 3 invariant forall j int :: 0 <= j && j < idx3 ==> res[j].Addr == addrs[j]
+//@ modifies elems(addrs)
+
+//@ func filterAddrs
+//@ prop C05
+//@ loop 0 invariant 0 <= j && j <= idx0 && idx0 <= len(addrs)
+//@ ensures len(filtered) + len(rest) == len(addrs) && filtered == addrs[:len(filtered)] && rest == addrs[len(filtered):]
+//@ modifies elems(addrs)
+
+//@ func DefaultDialRanker
+//@ prop C05
+//@ ensures len(result) == len(addrs)
+//@ loop 0 invariant len(res) == len(pvt) + len(public) + len(relay) + idx0 && len(pvt) + len(public) + len(relay) + len(addrs) == len(old(addrs)) && 0 <= idx0
+//@ modifies elems(addrs)
+
+//@ func NoDelayDialRanker
+//@ prop C05
+//@ ensures len(result) == len(addrs)
+//@ ensures forall j int :: 0 <= j && j < len(addrs) ==> result[j].Addr == addrs[j] && result[j].Delay == 0
+//@ modifies elems(addrs)
+
+//@ func (w *dialWorker) rankAddrs
+//@ prop C05
+//@ ensures isSimConnect ==> len(result) == len(addrs) && (forall j int :: 0 <= j && j < len(addrs) ==> result[j].Addr == addrs[j] && result[j].Delay == 0)
+//@ ensures !isSimConnect ==> called(dialRanker, 0) && result == ret(dialRanker, 0, 0)
+//@ modifies elems(addrs)
+
+// ---------------------------------------------------------------------------
+// dialWorker. wOwn: every pending request owns its address set (no two requests share one); wLive: every pending
+// request still waits for at least one address.
+// (r.addrs != w.pendingRequests / w.trackedDials: maps of different Go types are different objects - a typing fact the
+// untyped heap model does not know for values read under a quantifier.)
+
+//@ pred wOwn1(w *dialWorker) = w.pendingRequests != nil && w.trackedDials != nil &&
+//@     (forall r *pendRequest :: has(w.pendingRequests, r) ==> r != nil && r.addrs != nil && r.addrs != w.pendingRequests && r.addrs != w.trackedDials)
+//@ pred wOwn2(w *dialWorker) = forall r1 *pendRequest, r2 *pendRequest :: has(w.pendingRequests, r1) && has(w.pendingRequests, r2) && r1 != r2 ==> r1.addrs != r2.addrs
+//@ pred wOwn(w *dialWorker) = wOwn1(w) && wOwn2(w)
+//@ pred wLive(w *dialWorker) = forall r *pendRequest :: has(w.pendingRequests, r) ==> len(r.addrs) > 0
+
+//@ func newDialWorker
+//@ prop C05
+//@ ensures result != nil && fresh(result) && result.s == s && result.peer == p && result.reqch == reqch && !result.connected
+//@ ensures wOwn(result) && wLive(result) && len(result.pendingRequests) == 0 && len(result.trackedDials) == 0
+
+//@ func (s *Swarm) dialWorkerLoop
+//@ prop C05
+//@ ensures ncalls(newDialWorker, 0) == 1 && ncalls(loop, 0) == 1 && arg(loop, 0, 0) == ret(newDialWorker, 0, 0) &&
+//@         arg(newDialWorker, 0, 0) == s && arg(newDialWorker, 0, 1) == p && arg(newDialWorker, 0, 2) == reqch
+//@ noframe
+
+//@ func (s *Swarm) limitedDial
+//@ prop C05
+//@ ensures ncalls(AddDialJob, 0) == 1 && arg(AddDialJob, 0, 0) == s.limiter && fresh(arg(AddDialJob, 0, 1)) &&
+//@         arg(AddDialJob, 0, 1).addr == a && arg(AddDialJob, 0, 1).peer == p && arg(AddDialJob, 0, 1).resp == resp && arg(AddDialJob, 0, 1).ctx == ctx
+//@ ensures arg(AddDialJob, 0, 1).timeout == s.dialTimeout || (manet.IsPrivateAddr(a) && arg(AddDialJob, 0, 1).timeout == s.dialTimeoutLocal && s.dialTimeoutLocal < s.dialTimeout)
+//@ modifies contents(s.limiter.activePerPeer), contents(s.limiter.waitingOnPeerLimit), s.limiter.fdConsuming, s.limiter.waitingOnFd
+
+//@ func (s *Swarm) dialNextAddr
+//@ prop C05
+//@ ensures result == nil || result == ErrDialBackoff
+//@ ensures result != nil ==> !nth(network.GetForceDirectDial(ctx), 0) && called(Backoff, 0) && ret(Backoff, 0, 0) &&
+//@         arg(Backoff, 0, 1) == p && arg(Backoff, 0, 2) == addr && !called(limitedDial, 0)
+//@ ensures result == nil ==> ncalls(limitedDial, 0) == 1 && arg(limitedDial, 0, 1) == ctx && arg(limitedDial, 0, 2) == p &&
+//@         arg(limitedDial, 0, 3) == addr && arg(limitedDial, 0, 4) == resch
+//@ ensures result == nil && called(Backoff, 0) ==> !ret(Backoff, 0, 0)
+//@ modifies contents(s.limiter.activePerPeer), contents(s.limiter.waitingOnPeerLimit), s.limiter.fdConsuming, s.limiter.waitingOnFd
+
+//@ func (w *dialWorker) dispatchError
+//@ prop C05
+//@ requires wOwn(w)
+//@ loop 0 invariant forall r *pendRequest :: has(w.pendingRequests, r) ==> old(has(w.pendingRequests, r))
+//@ loop 0 invariant wOwn(w)
+//@ loop 0 invariant old(wLive(w)) ==> wLive(w)
+//@ loop 0 invariant forall r *pendRequest :: visited(0, r) && has(w.pendingRequests, r) ==> !has(r.addrs, string(ad.addr.Bytes()))
+//@ loop 0 invariant forall r *pendRequest :: old(has(w.pendingRequests, r)) && !has(w.pendingRequests, r) ==> len(r.addrs) == 0
+//@ loop 0 invariant sent(pr.req.resch) == old(len(w.pendingRequests)) - len(w.pendingRequests) && len(w.pendingRequests) <= old(len(w.pendingRequests))
+//@ loop 0 invariant forall s string :: has(w.trackedDials, s) == old(has(w.trackedDials, s)) && w.trackedDials[s] == old(w.trackedDials[s])
+//@ loop 0 invariant w.pendingRequests == old(w.pendingRequests) && w.trackedDials == old(w.trackedDials) && ad.err == err && ad.addr == old(ad.addr)
+//@ loop 0 iteration !has(w.pendingRequests, pr) ==> len(pr.addrs) == 0 && (sentval(pr.req.resch).conn != nil ||
+//@         (sentval(pr.req.resch).err == pr.err && pr.err.Cause == ErrAllDialsFailed))
+//@ loop 0 iteration !has(w.pendingRequests, pr) && sentval(pr.req.resch).conn != nil ==> sentval(pr.req.resch).err == nil &&
+//@         sentval(pr.req.resch).conn.conn.RemotePeer() == w.peer
+//@ ensures ad.err == err
+//@ ensures forall r *pendRequest :: has(w.pendingRequests, r) ==> old(has(w.pendingRequests, r)) && !has(r.addrs, string(ad.addr.Bytes()))
+//@ ensures forall r *pendRequest :: old(has(w.pendingRequests, r)) && !has(w.pendingRequests, r) ==> len(r.addrs) == 0
+//@ ensures sent(pr.req.resch) == old(len(w.pendingRequests)) - len(w.pendingRequests)
+//@ ensures err == ErrDialBackoff ==> !has(w.trackedDials, string(ad.addr.Bytes()))
+//@ ensures forall s string :: err != ErrDialBackoff || s != string(ad.addr.Bytes()) ==>
+//@         has(w.trackedDials, s) == old(has(w.trackedDials, s)) && w.trackedDials[s] == old(w.trackedDials[s])
+//@ ensures wOwn(w)
+//@ ensures old(wLive(w)) ==> wLive(w)
+//@ ensures len(w.pendingRequests) <= old(len(w.pendingRequests))
+//@ ensures forall r *pendRequest :: r.addrs == old(r.addrs) && r.req.resch == old(r.req.resch) && r.req.ctx == old(r.req.ctx) && r.err == old(r.err)
+//@ modifies ad.err, contents(w.pendingRequests), contents(w.trackedDials), pendRequest.addrs, DialError.DialErrors, DialError.Skipped, DialError.Cause
+
+// loop: opaque addrsForDial/addConn - their contracts are noframe (callers would forget all worker state); assumed not to
+// write dialWorker/pendRequest/addrDial/dialQueue state. opaque AddBackoff: its verified frame is DialBackoff only.
+// loop numbering: 0 = range in scheduleNextDial, 1 = main loop, 2/3 = ranges over addrRanking, 4 = tojoin, 5 = todial,
+// 6 = range over dq.NextBatch(), 7 = range over pendingRequests after a successful dial.
+// iteration#7.0 (an answer with the new connection goes exactly to the requests that listed the dialed address) also
+// guards C12: a force-direct request never lists a relay address.
+//@ func (w *dialWorker) loop
+//@ prop C05 C12
+//@ opaque addrsForDial, addConn, AddBackoff
+//@ requires wOwn(w)
+//@ loop 1 invariant wOwn1(w)
+//@ loop 1 invariant wOwn2(w)
+//@ loop 1 invariant recvd(w.reqch) == sent(req.resch) + ncalls(scheduleNextDial, 0)
+//@ loop 1 invariant sent(pr.req.resch) + len(w.pendingRequests) <= ncalls(scheduleNextDial, 0) + old(len(w.pendingRequests))
+//@ loop 2 invariant wOwn1(w) && pr != nil && pr.addrs != nil
+//@ loop 2 invariant wOwn2(w)
+//@ loop 2 invariant recvd(w.reqch) == sent(req.resch) + ncalls(scheduleNextDial, 0) + 1
+//@ loop 2 invariant sent(pr.req.resch) + len(w.pendingRequests) <= ncalls(scheduleNextDial, 0) + old(len(w.pendingRequests))
+//@ loop 3 invariant wOwn1(w) && pr != nil && pr.addrs != nil
+//@ loop 3 invariant wOwn2(w)
+//@ loop 3 invariant recvd(w.reqch) == sent(req.resch) + ncalls(scheduleNextDial, 0) + 1
+//@ loop 3 invariant sent(pr.req.resch) + len(w.pendingRequests) <= ncalls(scheduleNextDial, 0) + old(len(w.pendingRequests))
+//@ loop 4 invariant wOwn1(w)
+//@ loop 4 invariant wOwn2(w)
+//@ loop 4 invariant recvd(w.reqch) == sent(req.resch) + ncalls(scheduleNextDial, 0) + 1
+//@ loop 4 invariant sent(pr.req.resch) + len(w.pendingRequests) <= ncalls(scheduleNextDial, 0) + old(len(w.pendingRequests)) + 1
+//@ loop 5 invariant wOwn1(w)
+//@ loop 5 invariant wOwn2(w)
+//@ loop 5 invariant recvd(w.reqch) == sent(req.resch) + ncalls(scheduleNextDial, 0) + 1
+//@ loop 5 invariant sent(pr.req.resch) + len(w.pendingRequests) <= ncalls(scheduleNextDial, 0) + old(len(w.pendingRequests)) + 1
+//@ loop 6 invariant wOwn1(w)
+//@ loop 6 invariant wOwn2(w)
+//@ loop 6 invariant recvd(w.reqch) == sent(req.resch) + ncalls(scheduleNextDial, 0)
+//@ loop 6 invariant sent(pr.req.resch) + len(w.pendingRequests) <= ncalls(scheduleNextDial, 0) + old(len(w.pendingRequests))
+//@ loop 7 invariant wOwn1(w)
+//@ loop 7 invariant wOwn2(w)
+//@ loop 7 invariant recvd(w.reqch) == sent(req.resch) + ncalls(scheduleNextDial, 0)
+//@ loop 7 invariant sent(pr.req.resch) + len(w.pendingRequests) <= ncalls(scheduleNextDial, 0) + old(len(w.pendingRequests))
+//@ chaninv req.resch(v dialResponse) = v.conn != nil || v.err != nil
+//@ loop 7 iteration has(pr.addrs, string(ad.addr.Bytes())) <==> !has(w.pendingRequests, pr)
+//@ loop 7 iteration !has(w.pendingRequests, pr) ==> sentval(pr.req.resch).conn == conn && sentval(pr.req.resch).err == nil
+//@ callsite dialNextAddr#0 requires arg1 == ad.ctx && arg2 == w.peer && arg3 == ad.addr && arg4 == w.resch && ad.dialed &&
+//@         has(w.trackedDials, string(adelay.Addr.Bytes())) && ad == w.trackedDials[string(adelay.Addr.Bytes())]
+//@ callsite dispatchError#0 requires arg1 == ad && arg2 == ret(dialNextAddr, 0, 0) && arg2 != nil
+//@ callsite addConn#0 requires arg1 == res.Conn && res.Conn != nil && has(w.trackedDials, string(res.Addr.Bytes())) && res.Kind != tpt.UpdateKindHandshakeProgressed
+//@ callsite dispatchError#1 requires arg1 == ad && arg2 == ret(addConn, 0, 1) && arg2 != nil && ghost.closed(res.Conn)
+//@ callsite AddBackoff#0 requires !w.connected && res.Err != context.Canceled && res.Err != ErrDialRefusedBlackHole && arg1 == w.peer && arg2 == res.Addr
+//@ callsite dispatchError#2 requires arg1 == ad && arg2 == res.Err && res.Conn == nil && ad == w.trackedDials[string(res.Addr.Bytes())]
+//@ ensures called(clearAllPeerDials, 0) && arg(clearAllPeerDials, 0, 1) == w.peer && called(Stop, 0)
+//@ noframe
